@@ -2,7 +2,7 @@
     with the untrusted certificate recovered by the harness; [judge] runs the verified checkers of Flat/*.v on it
     (accepted = the soundness theorem applies to this very output) and, only when a checker rejects, classifies
     the rejection (which pieces exceed K tol, and whether the known step-rule trigger holds on them). *)
-From Coq Require Import ZArith QArith Qround List Bool.
+From Coq Require Import ZArith QArith Qabs Qround List Bool.
 From CV Require Corr.C09 Geom.Matrix Geom.MatrixProofs.
 From CV Require Import Base.Dy Flat.Curves Flat.Cert Flat.Arc Flat.XMono.
 Import ListNotations.
@@ -76,9 +76,11 @@ Definition judge_bez (B d1 : Q -> pt) (pb : Q -> Q -> Q) (alt : Q -> Q -> bool) 
     a vertical tangent (in the plane of the unit circle: the directions +-(rx cos phi, -ry sin phi)) lies strictly inside a piece.
     flags: 1 tie (generated arc), 2 same ellipse/direction, 4 chain, 8 on ellipse/advancing, 16 large flag, 32 not x-monotone,
     128 panic *)
+(** strictly inside, by more than 2^-20 of a radian-like margin (the cut points are computed in floating point) *)
 Definition strictly_in (sweep : bool) (u v e : Geom.Matrix.qpt) : bool :=
-  if sweep then Qltb 0 (Geom.MatrixProofs.qcross u e) && Qltb 0 (Geom.MatrixProofs.qcross e v)
-  else Qltb 0 (Geom.MatrixProofs.qcross v e) && Qltb 0 (Geom.MatrixProofs.qcross e u).
+  let m := (Qabs (fst e) + Qabs (snd e)) * (1 # 1048576) in
+  if sweep then Qltb m (Geom.MatrixProofs.qcross u e) && Qltb m (Geom.MatrixProofs.qcross e v)
+  else Qltb m (Geom.MatrixProofs.qcross v e) && Qltb m (Geom.MatrixProofs.qcross e u).
 Definition judge_xarc (c : Corr.C09.acase) : list Z :=
   let open := Corr.C09.aPanic c in
   if open then [128%Z; 0%Z; 0%Z; 0%Z; 0%Z] else
